@@ -445,6 +445,8 @@ def run(chk, tier, replay):
         lap("independent readers")
         team_shortfall(chk, tier, fixtures)
         lap("team shortfall")
+        big_batch(chk, tier)
+        lap("big batch")
         execs += execs2
         meta.update(meta2)
         mc_out, mc_tl = mc_future.result()     # raises InfraError if a specification-level expectation failed
@@ -780,6 +782,40 @@ def team_shortfall(chk, tier, fixtures):
                                           {"fixture": fx.desc(), "mode": mode, "bs": bs, "threads": threads, "omp_thread_limit": limit,
                                            "got": str(got)[:600], "want": str(want)[:600]})
     chk.part("team_shortfall", runs=n, differing=bad)
+
+
+def big_batch(chk, tier):
+    """Per-batch buffers of tens of megabytes (a wide FIXED_LEN_BYTE_ARRAY column read in one batch): limits, pools or
+    scratch space that depend on the thread count show up only at this scale. The batches (digests) and statuses for
+    num_threads 4, 16 and 0 (= all cores) must equal those of num_threads 1."""
+    binary = common.build_harness("h_file")
+    path = os.path.join(common.scratch_root(), "c07-big-%d.parquet" % os.getpid())
+    rows, tlen = (24000, 3000) if tier == "quick" else (40000, 4000)
+    try:
+        res, faults = common.run_harness(binary, ["g L:%s:%d:%d:0" % (path, tlen, rows)], per_case_timeout=300.0, env=H_ENV)
+        if faults or res.get("g") != ["L=0"]:
+            raise common.InfraError("could not write the large fixture: %s %s" % (res.get("g"), [f.signature() for f in faults]))
+        n = 0
+        for mode in ("f", "m"):
+            out = {}
+            for threads in (1, 4, 16, 0):
+                line = "t O:%s:%s:0 T:%d:%d:0:- N N Y Z" % (path, mode, rows, threads)
+                r, f = common.run_harness(binary, [line], per_case_timeout=300.0, env=H_ENV)
+                out[threads] = ("fault:" + f[0].signature()) if f else [x for x in r.get("t", []) if x.startswith("N=")]
+                n += 1
+                chk.count(("big", mode, threads, rows, tlen), True)
+            for threads in (4, 16, 0):
+                if out[threads] != out[1]:
+                    chk.violation("par:big-batch:differs-from-single-threaded",
+                                  "one batch of %d rows x FIXED_LEN_BYTE_ARRAY(%d) (%d MB), mode %s: num_threads=%d gives %s, num_threads=1 gives %s" % (
+                                      rows, tlen, rows * tlen >> 20, mode, threads, str(out[threads])[:200], str(out[1])[:200]),
+                                  {"rows": rows, "tlen": tlen, "mode": mode, "threads": threads})
+        chk.part("big_batch", runs=n, megabytes_per_batch=rows * tlen >> 20)
+    finally:
+        try:
+            os.unlink(path)
+        except OSError:
+            pass
 
 
 def independent_readers(chk, tier, fixtures, rng):
